@@ -23,8 +23,8 @@ CLAIMS = {
     'C04': ("Decided for all inputs: the visibility predicate (Snapshot::is_committed_before_snapshot, is_tuple_visible, TupleLayout::is_valid_for_snapshot) equals the snapshot-isolation rule 'creator is the reader or committed before the reader began, deleter is neither'; TransactionCoordinator::snapshot always records an upper bound and the active/aborted sets; a lemma connects the predicate to a ghost history; repeatability (verdict is a function of snapshot and version header); TransactionCoordinator::commit never moves the snapshot horizon backwards; validate_write_set reports a conflict whenever a written tuple was committed at or after the writer's start, and otherwise stamps every written tuple with the commit timestamp it drew (first-committer-wins bookkeeping, sequential lock semantics).",
             "Outside: that the executors call record_write (they do not today), the version-chain walk on raw tuple bytes, executors, schedules.",
             "Verus postconditions on verbatim-extracted functions", "4 C04, Appendix A.1"),
-    'C05': ("Decided (Kani on the real evaluator, complete over the stated domains): AND/OR/NOT are Kleene three-valued logic over all 9/3 operand combinations; =,<>,<,<=,>,>= on INT agree with integer order for every pair; NULL operands propagate through every comparison and arithmetic operator; boolean context maps NULL to false; column bindings are bounds-checked; 32-bit add/sub are exact; arithmetic on non-numerics is an error; the ORDER BY comparator is antisymmetric, transitive and follows integer order / direction for every INT/NULL key.",
-            "Outside: IS NULL/BETWEEN/IN arms inside evaluate() (beyond the model checker's capacity here, DESIGN M15), parser precedence, joins, grouping, sort, DISTINCT, LIMIT, DML row addressing; induction over expression depth is stated, not machine-checked.",
+    'C05': ("Decided (Kani on the real evaluator, complete over the stated domains): AND/OR/NOT are Kleene three-valued logic over all 9/3 operand combinations; =,<>,<,<=,>,>= on INT agree with integer order for every pair; NULL operands propagate through every comparison and arithmetic operator; boolean context maps NULL to false; column bindings are bounds-checked; 32-bit add/sub are exact; arithmetic on non-numerics is an error; the ORDER BY comparator is antisymmetric, transitive and follows integer order / direction for every INT/NULL key. The Pratt parser's binding-power table puts OR < AND < comparison/LIKE/IN/BETWEEN/IS < additive/|| < multiplicative, all left-associative, NOT only before IN/BETWEEN/LIKE (Verus on infix_binding_power).",
+            "Outside: IS NULL/BETWEEN/IN arms inside evaluate() (beyond the model checker's capacity here, DESIGN M15), the parser's prefix/driver code, joins, grouping, sort, DISTINCT, LIMIT, DML row addressing; induction over expression depth is stated, not machine-checked.",
             "complete Kani harnesses (loop-free, full-domain) on the real crate", "4 C05"),
     'C09': ("Decided (Kani, full domain): page-zero header state that must survive close/reopen -- aborted bitmap set/test/clear exactness and frame, header construction (counters, config fields, aligned page size); reload of the bitmap returns exactly the recorded ids; a checkpoint writes the header and every dirty page and leaves an openable empty log (Verus).",
             "Outside: catalog rows, free-list contents, overflow chains across reopen, Pager::sync_header I/O; ids >= 8192 are dropped by the bitmap (recorded known finding).",
